@@ -108,7 +108,10 @@ func init() {
 					if r.intn(5) == 0 {
 						return 0
 					}
-					return lens[r.intn(len(lens))]
+					if r.intn(12) == 0 {
+						return lens[r.intn(len(lens))]
+					}
+					return lens[r.intn(7)] // the long values are covered by the length cross product above
 				}
 				emit(line(str(l()), str(l()), str(l()), str(l()), r.intn(65536)*r.intn(2), durs[r.intn(8)]+int64(r.intn(3))-1, durs[r.intn(8)], durs[r.intn(8)], durs[r.intn(8)], cks[r.intn(len(cks))], r.intn(65536)*r.intn(2)))
 			}
